@@ -27,9 +27,9 @@ func (st *State) uniq(name string) string {
 	n := st.names[name]
 	st.names[name] = n + 1
 	if n == 0 {
-		return name
+		return st.prefix + name
 	}
-	return fmt.Sprintf("%s#%d", name, n)
+	return fmt.Sprintf("%s%s#%d", st.prefix, name, n)
 }
 
 func concStr(v Value) string {
@@ -123,6 +123,20 @@ func (c *Ctx) intrinsic(st *State, fn *ssa.Function, args []Value) (intrRes, boo
 			if v, ok := c.cfg.Cases[nm]; ok {
 				return done(tb.Const(64, uint64(v)))
 			}
+			if c.cfg.CasesAsForks {
+				// single-context mode (protocol extraction): the case variable is an ordinary input that forks
+				key := c.cfg.NamePrefix + "case:" + nm
+				x := tb.Var(key, 64)
+				if k, ok := st.subst[x.ID]; ok {
+					return done(k)
+				}
+				var vals []uint64
+				for v := sext64(lo.Val, 64); v <= sext64(hi.Val, 64); v++ {
+					vals = append(vals, uint64(v))
+				}
+				c.forkValues(st, x, vals)
+				return intrRes{true, nil}, true
+			}
 			c.needCase = &caseReq{Name: nm, Lo: sext64(lo.Val, 64), Hi: sext64(hi.Val, 64)}
 			c.finish(st, &PathResult{Outcome: OutInfeasible, Msg: "case discovery"})
 			return intrRes{true, nil}, true
@@ -135,6 +149,15 @@ func (c *Ctx) intrinsic(st *State, fn *ssa.Function, args []Value) (intrRes, boo
 			return done(tb.Or(args[0].(*Term), args[1].(*Term)))
 		case "vhImplies":
 			return done(tb.Implies(args[0].(*Term), args[1].(*Term)))
+		case "vhProtoCounter":
+			if st.hooks == nil {
+				st.hooks = map[string]Value{}
+			}
+			st.hooks["proto"] = args[0]
+			return done(nil)
+		case "vhEvent":
+			st.proto = append(st.proto, protoStep{Kind: concStr(args[0]), A: args[1].(*Term), B: args[2].(*Term), PcLen: len(st.pc)})
+			return done(nil)
 		case "vhParam":
 			nm := concStr(args[0])
 			if v, ok := c.cfg.Params[nm]; ok {
@@ -222,7 +245,12 @@ func (c *Ctx) intrinsic(st *State, fn *ssa.Function, args []Value) (intrRes, boo
 		return done(tb.zero(fn.Signature.Results().At(0).Type()))
 	case "time.Since", "(time.Time).Sub":
 		return done(tb.Const(64, 0))
-	case "(*sync.WaitGroup).Add", "(*sync.WaitGroup).Done", "(*sync.WaitGroup).Wait",
+	case "(*sync.WaitGroup).Done":
+		if st.hooks != nil && st.hooks["proto"] != nil {
+			st.proto = append(st.proto, protoStep{Kind: "done", PcLen: len(st.pc)})
+		}
+		return done(nil)
+	case "(*sync.WaitGroup).Add", "(*sync.WaitGroup).Wait",
 		"(*sync.Mutex).Lock", "(*sync.Mutex).Unlock", "(*sync.RWMutex).Lock", "(*sync.RWMutex).Unlock",
 		"(*sync.RWMutex).RLock", "(*sync.RWMutex).RUnlock", "runtime.Gosched", "runtime.GC", "runtime.KeepAlive":
 		return done(nil)
@@ -405,6 +433,13 @@ func (c *Ctx) atomicOp(st *State, name string, args []Value) (intrRes, bool) {
 		c.runtimePanic(st, "atomic op on nil pointer")
 		return intrRes{true, nil}, true
 	}
+	if st.hooks != nil {
+		if pp, ok := st.hooks["proto"].(Ptr); ok {
+			if eq, known := ptrEqual(pp, p); eq && known {
+				return c.protoAtomic(st, name, args)
+			}
+		}
+	}
 	switch {
 	case strings.HasPrefix(name, "Load"):
 		return done(c.load(st, p))
@@ -565,3 +600,35 @@ func (c *Ctx) inputsFromModel(st *State, m *Model) map[string]uint64 {
 }
 
 var _ = types.Typ
+
+// protoAtomic: protocol mode (C07). Operations on the hand-off counter are visible events; the counter's value is
+// not tracked locally: a Load yields a fresh variable (bound to the counter value at its firing time by the BMC),
+// a CAS yields a fresh Boolean result. A Load instruction executed a second time in the same activation is a
+// failed poll of the spin loop: that path is dropped (stutter step: failed polls change nothing but the spin count).
+func (c *Ctx) protoAtomic(st *State, name string, args []Value) (intrRes, bool) {
+	tb := c.tb
+	done := func(v Value) (intrRes, bool) { return intrRes{false, v}, true }
+	f := st.top()
+	site := fmt.Sprintf("%d:%s:%d:%d", len(st.frames), f.fn.Name(), f.block.Index, f.ip)
+	switch {
+	case strings.HasPrefix(name, "Load"):
+		key := "protoload:" + site
+		if _, seen := st.hooks[key]; seen {
+			c.finish(st, &PathResult{Outcome: OutInfeasible, Msg: "stutter"})
+			return intrRes{true, nil}, true
+		}
+		st.hooks[key] = true
+		v := tb.Var(st.uniq("ld"), 32)
+		st.proto = append(st.proto, protoStep{Kind: "load", Var: v, PcLen: len(st.pc), Site: site})
+		return done(v)
+	case strings.HasPrefix(name, "Store"):
+		st.proto = append(st.proto, protoStep{Kind: "store", A: args[1].(*Term), PcLen: len(st.pc), Site: site})
+		return done(nil)
+	case strings.HasPrefix(name, "CompareAndSwap"):
+		r := tb.Var(st.uniq("cas"), 0)
+		st.proto = append(st.proto, protoStep{Kind: "cas", A: args[1].(*Term), B: args[2].(*Term), Var: r, PcLen: len(st.pc), Site: site})
+		return done(r)
+	}
+	unsup("protocol counter: unsupported atomic op %s", name)
+	return intrRes{}, false
+}
